@@ -1,47 +1,1046 @@
+// C06 harness: the gateway's local token bucket.
+//
+//	(i)   scripts: the real flowcontrol.NewFlowControl / Resize, and the real UpstreamLimiter.Sync -> localWrapper.Sync
+//	      path, with the real client-go limiter and the real x/time/rate bucket reading a SCRIPTED clock
+//	      (the limiter object is the one the real code built; only its clock field is replaced), against the
+//	      Lean Float twin (exact equality of every admit/refuse answer) and judged by the Lean judges
+//	      (upper bound on every window, owed admissions after idleness, Resize semantics);
+//	(ii)  schedules: callers that are overtaken between reading the clock and updating the bucket
+//	      (the C06-stale-clock-overadmit regression), replayed deterministically;
+//	(iii) wall clock: NewFlowControl / Sync with 1-64 concurrent callers, one-sided judges.
 package main
 
 import (
+	"context"
+	"flag"
 	"fmt"
+	"io"
+	"math/big"
 	"os"
+	"path/filepath"
+	"reflect"
+	"sort"
 	"sync"
 	"sync/atomic"
 	"time"
+	"unsafe"
+
+	clientfc "k8s.io/client-go/util/flowcontrol"
+	"k8s.io/klog"
 
 	proxyv1alpha1 "github.com/kubewharf/kubegateway/pkg/apis/proxy/v1alpha1"
+	"github.com/kubewharf/kubegateway/pkg/flowcontrols"
 	"github.com/kubewharf/kubegateway/pkg/flowcontrols/flowcontrol"
+	"github.com/kubewharf/kubegateway/pkg/flowcontrols/remote"
+
+	"verifharness/rig"
 )
 
-func main() {
-	for _, qps := range []int32{0, 10, 1000, 100000, 10000000} {
-		for _, conc := range []int{1, 8, 64} {
-			burst := qps
-			if burst < 5 {
-				burst = 5
-			}
-			fc := flowcontrol.NewFlowControl(proxyv1alpha1.FlowControlSchema{Name: "x", FlowControlSchemaConfiguration: proxyv1alpha1.FlowControlSchemaConfiguration{TokenBucket: &proxyv1alpha1.TokenBucketFlowControlSchema{QPS: qps, Burst: burst}}})
-			var adm, calls int64
-			var wg sync.WaitGroup
-			t0 := time.Now()
-			stop := int32(0)
-			for i := 0; i < conc; i++ {
-				wg.Add(1)
-				go func() {
-					defer wg.Done()
-					for atomic.LoadInt32(&stop) == 0 {
-						if fc.TryAcquire() {
-							atomic.AddInt64(&adm, 1)
-						}
-						atomic.AddInt64(&calls, 1)
-					}
-				}()
-			}
-			time.Sleep(1 * time.Second)
-			atomic.StoreInt32(&stop, 1)
-			wg.Wait()
-			t1 := time.Now()
-			T := t1.Sub(t0).Seconds()
-			bound := float64(burst) + float64(qps)*T
-			fmt.Fprintf(os.Stderr, "qps=%d burst=%d conc=%d T=%.3f calls=%d admitted=%d bound=%.1f ratio=%.4f\n", qps, burst, conc, T, calls, adm, bound, float64(adm)/bound)
+// ---------------------------------------------------------------------------------------------
+// cases
+
+// Op of a script: an acquire at instant T (decimal ns since Go's zero time), or a reconfiguration to (RQ, RB).
+// Variant (sync path only) says how the unchanged/changed spec is presented: 0 plain, 1 with another schema
+// added to / removed from the list, 2 with the strategy field toggled ("" <-> "local").
+type Op struct {
+	T       string `json:"t,omitempty"`
+	RQ      *int   `json:"rq,omitempty"`
+	RB      *int   `json:"rb,omitempty"`
+	Variant int    `json:"variant,omitempty"`
+}
+
+type Step struct {
+	Op string `json:"op"` // tick | read | exec
+	I  int    `json:"i,omitempty"`
+	D  int64  `json:"d,omitempty"`
+}
+
+type Case struct {
+	Kind  string `json:"kind"` // script | sched | real
+	Path  string `json:"path,omitempty"`
+	QPS   int    `json:"qps"`
+	Burst int    `json:"burst"`
+	// script
+	Ops []Op `json:"ops,omitempty"`
+	// sched
+	T0    string `json:"t0,omitempty"`
+	Steps []Step `json:"steps,omitempty"`
+	// real
+	Pattern string `json:"pattern,omitempty"` // spin | idle | resync
+	Conc    int    `json:"conc,omitempty"`
+	DurMs   int    `json:"durMs,omitempty"`
+	IdleMs  int    `json:"idleMs,omitempty"`
+}
+
+// Obs is what the Lean judge reads.
+type Obs struct {
+	T       string `json:"t,omitempty"`
+	Ok      *bool  `json:"ok,omitempty"`
+	RQ      *int   `json:"rq,omitempty"`
+	RB      *int   `json:"rb,omitempty"`
+	Resized *bool  `json:"resized,omitempty"`
+}
+
+func bp(b bool) *bool { return &b }
+func ip(i int) *int   { return &i }
+
+const zeroToUnix = 62135596800 // seconds from 1 Jan year 1 to 1 Jan 1970
+
+var billion = big.NewInt(1000000000)
+
+func absToTime(ns *big.Int) time.Time {
+	sec, nsec := new(big.Int), new(big.Int)
+	sec.DivMod(ns, billion, nsec) // Euclidean: 0 <= nsec
+	return time.Unix(sec.Int64()-zeroToUnix, nsec.Int64())
+}
+
+func parseBig(s string) *big.Int {
+	v, ok := new(big.Int).SetString(s, 10)
+	if !ok {
+		return big.NewInt(0)
+	}
+	return v
+}
+
+// ---------------------------------------------------------------------------------------------
+// scripted clock
+
+type pause struct {
+	t       time.Time
+	proceed chan struct{}
+}
+
+type scriptClock struct {
+	mu      sync.Mutex
+	now     time.Time
+	pausing bool
+	arrive  chan *pause
+}
+
+func (c *scriptClock) Now() time.Time {
+	c.mu.Lock()
+	t, pausing := c.now, c.pausing
+	c.mu.Unlock()
+	if !pausing {
+		return t
+	}
+	p := &pause{t: t, proceed: make(chan struct{})}
+	c.arrive <- p // buffered: never blocks
+	<-p.proceed
+	return t
+}
+func (c *scriptClock) Sleep(time.Duration)  {}
+func (c *scriptClock) set(t time.Time)      { c.mu.Lock(); c.now = t; c.mu.Unlock() }
+func (c *scriptClock) get() time.Time       { c.mu.Lock(); defer c.mu.Unlock(); return c.now }
+func (c *scriptClock) setPausing(b bool)    { c.mu.Lock(); c.pausing = b; c.mu.Unlock() }
+func (c *scriptClock) add(d time.Duration)  { c.mu.Lock(); c.now = c.now.Add(d); c.mu.Unlock() }
+
+// ---------------------------------------------------------------------------------------------
+// the real code, behind one small interface for both entry paths
+
+const schemaName = "tb"
+
+func schema(name string, qps, burst int, strategy proxyv1alpha1.LimitStrategy) proxyv1alpha1.FlowControlSchema {
+	return proxyv1alpha1.FlowControlSchema{Name: name, Strategy: strategy,
+		FlowControlSchemaConfiguration: proxyv1alpha1.FlowControlSchemaConfiguration{
+			TokenBucket: &proxyv1alpha1.TokenBucketFlowControlSchema{QPS: int32(qps), Burst: int32(burst)}}}
+}
+
+// gateway is the limiter under test: either a bare flowcontrol.NewFlowControl(schema) that is Resize()d, or an
+// UpstreamLimiter that is Sync()ed and asked GetOrDefault(name) per request like the dispatcher does.
+type gateway struct {
+	path     string
+	fc       flowcontrol.FlowControl // direct
+	ul       flowcontrols.UpstreamLimiter
+	cancel   context.CancelFunc
+	strategy proxyv1alpha1.LimitStrategy
+	extra    bool
+	clk      *scriptClock      // nil: wall clock
+	lastRL   clientfc.RateLimiter
+	qps      int
+	burst    int
+}
+
+func (g *gateway) spec() proxyv1alpha1.FlowControl {
+	s := []proxyv1alpha1.FlowControlSchema{schema(schemaName, g.qps, g.burst, g.strategy)}
+	if g.extra {
+		s = append(s, schema("other", 7, 9, ""))
+	}
+	return proxyv1alpha1.FlowControl{Schemas: s}
+}
+
+func newGateway(path string, qps, burst int, clk *scriptClock) *gateway {
+	g := &gateway{path: path, clk: clk, qps: qps, burst: burst}
+	if path == "sync" {
+		ctx, cancel := context.WithCancel(context.Background())
+		g.cancel = cancel
+		g.ul = flowcontrols.NewUpstreamLimiter(ctx, "c06", "", nil)
+		g.ul.Sync(g.spec())
+	} else {
+		g.fc = flowcontrol.NewFlowControl(schema(schemaName, qps, burst, ""))
+	}
+	g.attach()
+	return g
+}
+
+// current is what a request would call TryAcquire on.
+func (g *gateway) current() flowcontrol.FlowControl {
+	if g.path == "sync" {
+		return g.ul.GetOrDefault(schemaName)
+	}
+	return g.fc
+}
+
+// attach hands the scripted clock to the limiter the real code built, if it is a new one; it reports whether
+// the real code replaced the limiter (a fresh bucket) since the last look.
+func (g *gateway) attach() (swapped bool) {
+	var inner flowcontrol.FlowControl = g.current()
+	if g.path == "sync" {
+		inner = remote.VerifC06Inner(inner)
+	}
+	rl, ok := flowcontrol.VerifC06Limiter(inner)
+	if !ok {
+		return false
+	}
+	if rl == g.lastRL {
+		return false
+	}
+	g.lastRL = rl
+	if g.clk != nil {
+		if !setClock(rl, g.clk) {
+			fmt.Fprintln(os.Stderr, "C06: the client-go token bucket limiter has no settable `clock` field any more")
+			os.Exit(2)
 		}
 	}
+	return true
+}
+
+// setClock makes the client-go limiter the real code built (a *tokenBucketRateLimiter) read the scripted
+// clock instead of the wall clock: its unexported `clock` field is the only thing written; the rate.Limiter
+// inside (the bucket) is the one the real code constructed. (An -overlay file added to a module-cache
+// directory is ignored by the go command's module index, hence reflection.)
+func setClock(rl clientfc.RateLimiter, clk clientfc.Clock) (ok bool) {
+	defer func() {
+		if recover() != nil {
+			ok = false
+		}
+	}()
+	v := reflect.ValueOf(rl)
+	if v.Kind() != reflect.Ptr || v.Elem().Kind() != reflect.Struct {
+		return false
+	}
+	f := v.Elem().FieldByName("clock")
+	if !f.IsValid() {
+		return false
+	}
+	reflect.NewAt(f.Type(), unsafe.Pointer(f.UnsafeAddr())).Elem().Set(reflect.ValueOf(clk))
+	return true
+}
+
+// reconfigure applies (qps, burst) the way the path does; answer = what Resize said (direct path only).
+func (g *gateway) reconfigure(qps, burst, variant int) (said *bool, swapped bool) {
+	g.qps, g.burst = qps, burst
+	if g.path == "sync" {
+		switch variant {
+		case 1:
+			g.extra = !g.extra
+		case 2:
+			if g.strategy == "" {
+				g.strategy = proxyv1alpha1.LocalLimit
+			} else {
+				g.strategy = ""
+			}
+		}
+		g.ul.Sync(g.spec())
+	} else {
+		said = bp(g.fc.Resize(uint32(qps), uint32(burst)))
+	}
+	return said, g.attach()
+}
+
+func (g *gateway) close() {
+	if g.ul != nil {
+		for _, c := range g.ul.AllFlowControls() {
+			c.Stop()
+		}
+		g.cancel()
+	}
+}
+
+// ---------------------------------------------------------------------------------------------
+// (i) scripts
+
+type scriptOut struct {
+	Answers []bool // per op: admitted / limiter replaced
+	Obs     []Obs
+	FlagBad string // Resize's answer disagrees with what it did
+}
+
+func runScript(cs Case) (out scriptOut, panicMsg string) {
+	clk := &scriptClock{arrive: make(chan *pause, 64)}
+	msg, panicked := rig.Recover(func() {
+		g := newGateway(cs.Path, cs.QPS, cs.Burst, clk)
+		defer g.close()
+		for i, op := range cs.Ops {
+			if op.RQ != nil {
+				said, swapped := g.reconfigure(*op.RQ, *op.RB, op.Variant)
+				if said != nil && *said != swapped && out.FlagBad == "" {
+					out.FlagBad = fmt.Sprintf("op %d: Resize(%d,%d) answered %v but the limiter was replaced=%v", i, *op.RQ, *op.RB, *said, swapped)
+				}
+				out.Answers = append(out.Answers, swapped)
+				out.Obs = append(out.Obs, Obs{RQ: op.RQ, RB: op.RB, Resized: bp(swapped)})
+				continue
+			}
+			clk.set(absToTime(parseBig(op.T)))
+			ok := g.current().TryAcquire()
+			out.Answers = append(out.Answers, ok)
+			out.Obs = append(out.Obs, Obs{T: op.T, Ok: bp(ok)})
+		}
+	})
+	if panicked {
+		return out, msg
+	}
+	return out, ""
+}
+
+func sortedScript(cs Case) bool {
+	var prev *big.Int
+	for _, op := range cs.Ops {
+		if op.RQ != nil {
+			continue
+		}
+		t := parseBig(op.T)
+		if prev != nil && t.Cmp(prev) < 0 {
+			return false
+		}
+		prev = t
+	}
+	return true
+}
+
+// judgedDomain: where the run-time judges are applied to the float implementation (see notes/C06.md):
+// below half a billion per second the nanosecond slack plus float fuzz stays under one request; the "owed"
+// judge additionally needs the float error of the token count (ulp(burst) per operation) to stay below one
+// nanosecond's worth of tokens.
+func upperJudged(cs Case) bool {
+	q := cs.QPS
+	for _, op := range cs.Ops {
+		if op.RQ != nil && *op.RQ > q {
+			q = *op.RQ
+		}
+	}
+	return q <= 500000000
+}
+func lowerJudged(cs Case) bool {
+	b := cs.Burst
+	for _, op := range cs.Ops {
+		if op.RB != nil && *op.RB > b {
+			b = *op.RB
+		}
+	}
+	return b <= 65536 && upperJudged(cs)
+}
+
+type failure struct {
+	kind, class, what string
+	impl, model       interface{}
+}
+
+func checkScript(c *rig.Ctx, cs Case) *failure {
+	f, _ := checkScriptOut(c, cs)
+	return f
+}
+
+func checkScriptOut(c *rig.Ctx, cs Case) (*failure, scriptOut) {
+	out, pmsg := runScript(cs)
+	f := judgeScript(c, cs, out, pmsg)
+	return f, out
+}
+
+func judgeScript(c *rig.Ctx, cs Case, out scriptOut, pmsg string) *failure {
+	if pmsg != "" {
+		return &failure{"judge", "c06.panic", "the limiter panicked: " + pmsg, nil, nil}
+	}
+	if out.FlagBad != "" {
+		return &failure{"judge", "c06.resize.answer", out.FlagBad, out.Answers, nil}
+	}
+	// the property, on the real code's answers
+	if sortedScript(cs) {
+		var v struct{ Upper, Lower, Resize bool }
+		if err := c.Model("C06.judge", map[string]interface{}{"qps": cs.QPS, "burst": cs.Burst, "obs": out.Obs}, &v); err != nil {
+			return &failure{"diff", "c06.model-error", "judge: " + err.Error(), nil, nil}
+		}
+		if !v.Resize {
+			return &failure{"judge", "c06.resize", "a reconfiguration to the same (qps,burst) replaced the bucket, or one to different values kept it: " + renderAnswers(cs, out.Answers), out.Answers, nil}
+		}
+		if !v.Upper && upperJudged(cs) {
+			return &failure{"judge", "c06.upper.script", "more than ceil(burst + qps*T) admitted in a window without reconfiguration: " + renderAnswers(cs, out.Answers), out.Answers, nil}
+		}
+		if !v.Lower && lowerJudged(cs) {
+			return &failure{"judge", "c06.lower.script", "fewer than min(burst, floor(qps*idle)) admitted after an idle period: " + renderAnswers(cs, out.Answers), out.Answers, nil}
+		}
+	}
+	// correspondence
+	var m struct {
+		Twin, Ns, Ideal []bool
+		F32exact        bool
+	}
+	if err := c.Model("C06.script", cs, &m); err != nil {
+		return &failure{"diff", "c06.model-error", "script: " + err.Error(), nil, nil}
+	}
+	if rig.Canon(m.Twin) != rig.Canon(out.Answers) {
+		return &failure{"diff", "c06.script.diff", "answers differ: code " + renderAnswers(cs, out.Answers) + " twin " + renderAnswers(cs, m.Twin), out.Answers, m.Twin}
+	}
+	if rig.Canon(m.Ns) != rig.Canon(out.Answers) {
+		c.Count("info:float-vs-rational-differs")
+	}
+	if rig.Canon(m.Ideal) != rig.Canon(out.Answers) {
+		c.Count("info:ns-truncation-visible")
+	}
+	return nil
+}
+
+func renderAnswers(cs Case, a []bool) string {
+	s := ""
+	for i, x := range a {
+		if i >= len(cs.Ops) {
+			break
+		}
+		switch {
+		case cs.Ops[i].RQ != nil && x:
+			s += "R"
+		case cs.Ops[i].RQ != nil:
+			s += "r"
+		case x:
+			s += "1"
+		default:
+			s += "0"
+		}
+	}
+	return s
+}
+
+func shrinkScript(c *rig.Ctx, cs Case, class string) Case {
+	cs.Ops = rig.ShrinkList(cs.Ops, func(l []Op) bool {
+		x := cs
+		x.Ops = l
+		f := checkScript(c, x)
+		return f != nil && f.class == class
+	})
+	return cs
+}
+
+// generator -------------------------------------------------------------------------------------
+
+var qpsPool = []int{1, 1, 2, 3, 3, 7, 10, 10, 50, 100, 100, 999, 1000, 12345, 100000, 1000000, 16777216, 16777217, 33554435, 400000000, 2147483647, 0}
+
+func genParams(c *rig.Ctx) (int, int) {
+	r := c.Rng
+	q := rig.Pick(r, qpsPool)
+	if r.Intn(6) == 0 {
+		q = 1 + r.Intn(300)
+	}
+	var b int
+	switch r.Intn(10) {
+	case 0:
+		b = q // the smallest valid burst
+	case 1:
+		b = q + 1
+	case 2:
+		b = 2 * q
+	case 3:
+		b = 1 + r.Intn(5) // may be below qps (validation refuses it; the bucket must still be a bucket)
+	case 4:
+		b = 0
+	case 5:
+		b = 65536
+	default:
+		b = q + r.Intn(40)
+	}
+	if q <= 300 && b > q+60 && r.Intn(2) == 0 {
+		b = q + r.Intn(30)
+	}
+	if b > 2147483647 || b < 0 {
+		b = 2147483647
+	}
+	return q, b
+}
+
+var nowAbs, _ = new(big.Int).SetString("63900000000000000000", 10) // some day in 2025, ns since year 1
+
+func genScript(c *rig.Ctx, path string, raw bool) Case {
+	r := c.Rng
+	q, b := genParams(c)
+	if raw || b > 400 {
+		// long drains are not worth the time: keep the burst small unless the stream is the raw one
+		if !raw {
+			b = q%300 + r.Intn(30)
+			if q > 300 {
+				q = 1 + r.Intn(300)
+				b = q + r.Intn(30)
+			}
+		}
+	}
+	cs := Case{Kind: "script", Path: path, QPS: q, Burst: b}
+	t := new(big.Int).Set(nowAbs)
+	switch r.Intn(8) {
+	case 0:
+		t = big.NewInt(int64(r.Intn(3))) // at the zero time: the first advance does not saturate
+	case 1:
+		t = big.NewInt(1 + r.Int63n(5000000000))
+	case 2:
+		t = new(big.Int).Add(big.NewInt(9223372036854775807), big.NewInt(int64(r.Intn(3)-1))) // Sub saturation edge
+	}
+	curQ, curB := q, b
+	n := 1 + r.Intn(80)
+	if r.Intn(4) == 0 {
+		n = 1 + r.Intn(12)
+	}
+	interval := func() int64 { // ns per token
+		if curQ <= 0 {
+			return 1000000000
+		}
+		return 1000000000 / int64(curQ)
+	}
+	for i := 0; i < n; i++ {
+		if r.Intn(9) == 0 {
+			nq, nb := curQ, curB
+			switch r.Intn(5) {
+			case 0, 1: // unchanged
+			case 2:
+				nb = curB + 1 + r.Intn(5)
+			case 3:
+				nq, nb = genParams(c)
+				if nb > 400 {
+					nb = nq%300 + r.Intn(30)
+				}
+			case 4:
+				nq, nb = curB, curQ // swapped
+			}
+			cs.Ops = append(cs.Ops, Op{RQ: ip(nq), RB: ip(nb), Variant: r.Intn(3)})
+			curQ, curB = nq, nb
+			continue
+		}
+		var d int64
+		switch r.Intn(16) {
+		case 0, 1, 2, 3, 4:
+			d = 0
+		case 5:
+			d = 1
+		case 6:
+			d = interval()
+		case 7:
+			d = interval() - 1
+		case 8:
+			d = interval() + 1
+		case 9:
+			d = interval() * int64(1+r.Intn(curB+2))
+		case 10:
+			d = r.Int63n(interval() + 1)
+		case 11:
+			d = r.Int63n(3000000000)
+		case 12:
+			d = 3600000000000 * int64(1+r.Intn(100))
+		case 13:
+			d = interval()*int64(1+r.Intn(5)) + int64(r.Intn(3)-1)
+		case 14:
+			if raw {
+				d = -r.Int63n(2000000000) // the clock steps back
+			}
+		case 15:
+			if raw {
+				t.Add(t, new(big.Int).Lsh(big.NewInt(1), 63)) // more than 292 years
+			}
+		}
+		t.Add(t, big.NewInt(d))
+		cs.Ops = append(cs.Ops, Op{T: t.String()})
+	}
+	return cs
+}
+
+// ---------------------------------------------------------------------------------------------
+// (ii) schedules
+
+type schedOut struct {
+	Obs        []Obs
+	Admitted   int
+	Serialised bool // a caller could not reach the clock while another one was paused after reading it
+	Hiccup     bool
+	First      string
+	Last       string
+}
+
+func runSched(cs Case) (out schedOut) {
+	clk := &scriptClock{arrive: make(chan *pause, 256), pausing: true}
+	base := parseBig(cs.T0)
+	clk.set(absToTime(base))
+	cur := new(big.Int).Set(base)
+	out.First, out.Last = cur.String(), cur.String()
+	g := newGateway(cs.Path, cs.QPS, cs.Burst, clk)
+	defer g.close()
+	type res struct {
+		ok bool
+		t  time.Time
+	}
+	results := map[int]chan res{}
+	paused := map[int]*pause{}
+	readAt := map[int]string{}
+	finish := func(i int) {
+		ch, started := results[i]
+		if !started {
+			return
+		}
+		select {
+		case r := <-ch:
+			delete(results, i)
+			out.Obs = append(out.Obs, Obs{T: readAt[i], Ok: bp(r.ok)})
+			if r.ok {
+				out.Admitted++
+			}
+		case <-time.After(20 * time.Second):
+			out.Hiccup = true
+		}
+	}
+	for _, st := range cs.Steps {
+		switch st.Op {
+		case "tick":
+			cur.Add(cur, big.NewInt(st.D))
+			clk.set(absToTime(cur))
+			out.Last = cur.String()
+		case "read":
+			i := st.I
+			ch := make(chan res, 1)
+			results[i] = ch
+			readAt[i] = cur.String()
+			go func() {
+				var ok bool
+				rig.Recover(func() { ok = g.current().TryAcquire() })
+				ch <- res{ok: ok}
+			}()
+			if out.Serialised {
+				continue
+			}
+			select {
+			case p := <-clk.arrive:
+				paused[i] = p
+			case <-time.After(400 * time.Millisecond):
+				// the caller cannot get to the clock: whoever read the clock before it still excludes it.
+				// From here on nobody is paused any more: the calls run in whatever order the lock gives.
+				out.Serialised = true
+				clk.setPausing(false)
+				for j, p := range paused {
+					close(p.proceed)
+					delete(paused, j)
+				}
+			}
+		case "exec":
+			if p, ok := paused[st.I]; ok {
+				close(p.proceed)
+				delete(paused, st.I)
+			}
+			finish(st.I)
+		}
+	}
+	clk.setPausing(false)
+	for j, p := range paused {
+		close(p.proceed)
+		delete(paused, j)
+	}
+	// late arrivals (serialised mode) are never paused; drain what is left
+	idx := []int{}
+	for i := range results {
+		idx = append(idx, i)
+	}
+	sort.Ints(idx)
+	for _, i := range idx {
+		finish(i)
+	}
+	return out
+}
+
+func checkSched(c *rig.Ctx, cs Case) *failure {
+	out := runSched(cs)
+	if out.Hiccup {
+		c.Count("sched:hiccup-skipped")
+		return nil
+	}
+	if out.Serialised {
+		c.Count("sched:callers-serialised")
+	} else {
+		c.Count("sched:overtaking-possible")
+	}
+	var w struct {
+		Ok    bool
+		Bound int64
+	}
+	if err := c.Model("C06.window", map[string]interface{}{"qps": cs.QPS, "burst": cs.Burst, "t0": out.First, "t1": out.Last, "count": out.Admitted}, &w); err != nil {
+		return &failure{"diff", "c06.model-error", "window: " + err.Error(), nil, nil}
+	}
+	if !w.Ok {
+		return &failure{"judge", "c06.upper.concurrent", fmt.Sprintf("qps=%d burst=%d: %d requests admitted between clock readings %s and %s ns, ceil(burst+qps*T) = %d (callers overtaken between reading the clock and updating the bucket)",
+			cs.QPS, cs.Burst, out.Admitted, out.First, out.Last, w.Bound), out.Obs, nil}
+	}
+	return nil
+}
+
+// staleSchedule: k rounds of "A reads, is overtaken by C one token-interval later, A runs, D runs".
+func genSched(c *rig.Ctx, path string) Case {
+	r := c.Rng
+	q := rig.Pick(r, []int{1, 2, 10, 100})
+	b := q + r.Intn(3)
+	cs := Case{Kind: "sched", Path: path, QPS: q, Burst: b, T0: nowAbs.String()}
+	id := 0
+	// drain
+	for i := 0; i < b; i++ {
+		cs.Steps = append(cs.Steps, Step{Op: "read", I: id}, Step{Op: "exec", I: id})
+		id++
+	}
+	rounds := 1 + r.Intn(3)
+	for k := 0; k < rounds; k++ {
+		a := id
+		id++
+		cs.Steps = append(cs.Steps, Step{Op: "read", I: a})
+		cs.Steps = append(cs.Steps, Step{Op: "tick", D: 1000000000 / int64(q)})
+		for j := 0; j < 1+r.Intn(2); j++ {
+			cs.Steps = append(cs.Steps, Step{Op: "read", I: id}, Step{Op: "exec", I: id})
+			id++
+		}
+		cs.Steps = append(cs.Steps, Step{Op: "exec", I: a})
+		for j := 0; j < 1+r.Intn(2); j++ {
+			cs.Steps = append(cs.Steps, Step{Op: "read", I: id}, Step{Op: "exec", I: id})
+			id++
+		}
+	}
+	return cs
+}
+
+// ---------------------------------------------------------------------------------------------
+// (iii) wall clock
+
+var procStart = time.Now()
+
+func mono() int64 { return int64(time.Since(procStart)) }
+
+type realOut struct {
+	T0, T1   int64
+	Calls    int64
+	Admitted int64
+	// idle pattern
+	IdleNs  int64
+	Owed    int64
+	Got     int64
+	Skipped string
+}
+
+func spin(g *gateway, conc int, dur time.Duration, resync bool) (calls, admitted int64) {
+	var stop int32
+	var wg sync.WaitGroup
+	for i := 0; i < conc; i++ {
+		wg.Add(1)
+		go func() {
+			defer wg.Done()
+			for atomic.LoadInt32(&stop) == 0 {
+				if g.current().TryAcquire() {
+					atomic.AddInt64(&admitted, 1)
+				}
+				atomic.AddInt64(&calls, 1)
+			}
+		}()
+	}
+	if resync {
+		// the same (qps, burst) presented again and again, in every way an unchanged spec can arrive
+		end := time.Now().Add(dur)
+		for v := 0; time.Now().Before(end); v++ {
+			g.reconfigure(g.qps, g.burst, v%3)
+			time.Sleep(time.Millisecond)
+		}
+	} else {
+		time.Sleep(dur)
+	}
+	atomic.StoreInt32(&stop, 1)
+	wg.Wait()
+	return calls, admitted
+}
+
+func runReal(c *rig.Ctx, cs Case) (out realOut, f *failure) {
+	msg, panicked := rig.Recover(func() {
+		out.T0 = mono() // before the bucket exists
+		g := newGateway(cs.Path, cs.QPS, cs.Burst, nil)
+		defer g.close()
+		switch cs.Pattern {
+		case "spin", "resync":
+			out.Calls, out.Admitted = spin(g, cs.Conc, time.Duration(cs.DurMs)*time.Millisecond, cs.Pattern == "resync")
+			out.T1 = mono() // after the last call returned
+		case "idle":
+			// a fresh bucket owes its whole burst
+			fresh := int64(0)
+			for i := 0; i < cs.Burst; i++ {
+				if g.current().TryAcquire() {
+					fresh++
+				}
+			}
+			out.Admitted = fresh
+			if fresh < int64(cs.Burst) {
+				f = &failure{"judge", "c06.lower.fresh", fmt.Sprintf("qps=%d burst=%d: a new bucket admitted only %d of its first %d requests", cs.QPS, cs.Burst, fresh, cs.Burst), fresh, nil}
+				return
+			}
+			// drain what was refilled meanwhile: until 3 refusals in a row (bounded)
+			refused := 0
+			for i := 0; i < 200000 && refused < 3; i++ {
+				if g.current().TryAcquire() {
+					out.Admitted++
+					refused = 0
+				} else {
+					refused++
+				}
+			}
+			u := mono() // after the last call returned
+			time.Sleep(time.Duration(cs.IdleMs) * time.Millisecond)
+			v := mono() // before the next call
+			out.IdleNs = v - u
+			var o struct{ Owed int64 }
+			if err := c.Model("C06.owed", map[string]interface{}{"qps": cs.QPS, "burst": cs.Burst, "d": fmt.Sprint(out.IdleNs)}, &o); err != nil {
+				f = &failure{"diff", "c06.model-error", "owed: " + err.Error(), nil, nil}
+				return
+			}
+			out.Owed = o.Owed
+			for i := int64(0); i < out.Owed; i++ {
+				if g.current().TryAcquire() {
+					out.Got++
+				}
+			}
+			out.Admitted += out.Got
+			out.T1 = mono()
+			if out.Got < out.Owed {
+				f = &failure{"judge", "c06.lower.idle", fmt.Sprintf("qps=%d burst=%d: after %d ns without a call only %d of the next %d requests were admitted (owed min(burst, floor(qps*idle)) = %d)",
+					cs.QPS, cs.Burst, out.IdleNs, out.Got, out.Owed, out.Owed), out, nil}
+				return
+			}
+		}
+	})
+	if panicked {
+		return out, &failure{"judge", "c06.panic", "the limiter panicked: " + msg, nil, nil}
+	}
+	if f != nil {
+		return out, f
+	}
+	var w struct {
+		Ok    bool
+		Bound int64
+	}
+	if err := c.Model("C06.window", map[string]interface{}{"qps": cs.QPS, "burst": cs.Burst, "t0": fmt.Sprint(out.T0), "t1": fmt.Sprint(out.T1), "count": out.Admitted}, &w); err != nil {
+		return out, &failure{"diff", "c06.model-error", "window: " + err.Error(), nil, nil}
+	}
+	if !w.Ok {
+		class := "c06.upper.sequential"
+		if cs.Conc > 1 {
+			class = "c06.upper.concurrent"
+		}
+		if cs.Pattern == "resync" {
+			class = "c06.upper.resync"
+		}
+		return out, &failure{"judge", class, fmt.Sprintf("qps=%d burst=%d, %d caller(s), pattern %s via %s: %d admitted in %.3f s (measured from before the bucket was created to after the last call), ceil(burst+qps*T) = %d",
+			cs.QPS, cs.Burst, cs.Conc, cs.Pattern, cs.Path, out.Admitted, float64(out.T1-out.T0)/1e9, w.Bound), out, nil}
+	}
+	return out, nil
+}
+
+func realPatterns(c *rig.Ctx) []Case {
+	fixed := []Case{
+		{Kind: "real", Path: "direct", Pattern: "spin", QPS: 1000, Burst: 1000, Conc: 1, DurMs: 700},
+		{Kind: "real", Path: "direct", Pattern: "spin", QPS: 1000, Burst: 1000, Conc: 64, DurMs: 1000},
+		{Kind: "real", Path: "direct", Pattern: "spin", QPS: 100000, Burst: 100000, Conc: 64, DurMs: 700},
+		{Kind: "real", Path: "sync", Pattern: "spin", QPS: 50, Burst: 100, Conc: 16, DurMs: 1600},
+		{Kind: "real", Path: "sync", Pattern: "resync", QPS: 5, Burst: 40, Conc: 4, DurMs: 700},
+		{Kind: "real", Path: "direct", Pattern: "resync", QPS: 20, Burst: 25, Conc: 1, DurMs: 500},
+		{Kind: "real", Path: "direct", Pattern: "idle", QPS: 200, Burst: 220, IdleMs: 1200},
+		{Kind: "real", Path: "sync", Pattern: "idle", QPS: 5000, Burst: 5000, IdleMs: 100},
+		{Kind: "real", Path: "direct", Pattern: "spin", QPS: 2000, Burst: 4000, Conc: 8, DurMs: 1500},
+	}
+	n := c.Budget(0, 51)
+	r := c.Rng
+	for i := 0; i < n; i++ {
+		q := rig.Pick(r, []int{1, 5, 50, 200, 1000, 5000, 100000, 1000000})
+		b := q + r.Intn(q+1)
+		cs := Case{Kind: "real", Path: rig.Pick(r, []string{"direct", "sync"}), QPS: q, Burst: b}
+		switch r.Intn(4) {
+		case 0:
+			cs.Pattern, cs.IdleMs = "idle", 50+r.Intn(1200)
+			if b > 20000 {
+				cs.Burst = 20000
+				if cs.QPS > 20000 {
+					cs.QPS = 20000
+				}
+			}
+		case 1:
+			cs.Pattern, cs.Conc, cs.DurMs = "resync", 1+r.Intn(8), 300+r.Intn(700)
+		default:
+			cs.Pattern, cs.Conc, cs.DurMs = "spin", rig.Pick(r, []int{1, 2, 4, 16, 32, 64}), 300+r.Intn(1400)
+		}
+		fixed = append(fixed, cs)
+	}
+	return fixed
+}
+
+// ---------------------------------------------------------------------------------------------
+
+func runCase(c *rig.Ctx, cs Case, record bool) bool {
+	var f *failure
+	switch cs.Kind {
+	case "script":
+		f = checkScript(c, cs)
+		if f != nil && record && len(cs.Ops) > 1 {
+			cs = shrinkScript(c, cs, f.class)
+			if f2 := checkScript(c, cs); f2 != nil {
+				f = f2
+			}
+		}
+	case "sched":
+		f = checkSched(c, cs)
+	case "real":
+		_, f = runReal(c, cs)
+	default:
+		fmt.Fprintln(os.Stderr, "unknown case kind", cs.Kind)
+		os.Exit(2)
+	}
+	if f != nil && record {
+		c.Fail(rig.Failure{Kind: f.kind, Class: f.class, What: f.what, Case: cs, Impl: f.impl, Model: f.model})
+	}
+	return f == nil
+}
+
+func silenceKlog() {
+	fs := flag.NewFlagSet("klog", flag.ContinueOnError)
+	klog.InitFlags(fs)
+	fs.Set("logtostderr", "false")
+	fs.Set("alsologtostderr", "false")
+	fs.Set("stderrthreshold", "FATAL")
+	klog.SetOutput(io.Discard)
+}
+
+func corpus() []Case {
+	dir := os.Getenv("VERIF_DIR")
+	if dir == "" {
+		dir = "/verif"
+	}
+	files, _ := filepath.Glob(filepath.Join(dir, "harness", "corpus", "C06", "*.json"))
+	sort.Strings(files)
+	var out []Case
+	for _, f := range files {
+		c := &rig.Ctx{Replay: f}
+		var cs Case
+		if err := c.LoadReplay(&cs); err != nil {
+			fmt.Fprintln(os.Stderr, "corpus file", f, err)
+			os.Exit(2)
+		}
+		out = append(out, cs)
+	}
+	return out
+}
+
+func main() {
+	silenceKlog()
+	rig.Main("C06", func(c *rig.Ctx) {
+		c.SetRule("script: (qps, burst) from a pool of thresholds (1..2^31-1, float32-inexact values, 0, burst = qps, qps+1, below qps, 0) and 1-80 operations " +
+			"on the real bucket with a scripted clock - acquires at gaps of 0, 1 ns, one token interval -1/0/+1 ns, k intervals, hours, >292 years, backwards (raw stream), " +
+			"first call at the zero time / at the Sub saturation edge, and reconfigurations (unchanged, changed, swapped; presented plainly, with another schema added/removed, with the strategy toggled) " +
+			"through Resize or through UpstreamLimiter.Sync; distinct = distinct canonical script; non-trivial = both admitted and refused calls, or an effective reconfiguration. " +
+			"sched: callers overtaken between clock read and bucket update. real: wall-clock patterns (spin with 1-64 callers, idle-then-burst, unchanged re-sync under load).")
+		if c.Replay != "" {
+			var cs Case
+			if err := c.LoadReplay(&cs); err != nil {
+				fmt.Fprintln(os.Stderr, err)
+				os.Exit(2)
+			}
+			c.Case(rig.Canon(cs), true, "replay", func() interface{} { return cs })
+			runCase(c, cs, true)
+			return
+		}
+		// past failures first
+		for _, cs := range corpus() {
+			c.Case(rig.Canon(cs), true, "corpus:"+cs.Kind, nil)
+			c.Trace()
+			runCase(c, cs, true)
+		}
+		// wall-clock patterns run beside the scripts (their judges are one-sided)
+		var wg sync.WaitGroup
+		pats := realPatterns(c)
+		sem := make(chan struct{}, 3)
+		for i, cs := range pats {
+			cs := cs
+			c.Case(rig.Canon(cs)+fmt.Sprint(i), true, "real:"+cs.Pattern+":"+cs.Path+fmt.Sprintf(":conc%d", cs.Conc), func() interface{} { return cs })
+			c.Trace()
+		}
+		wg.Add(1)
+		go func() {
+			defer wg.Done()
+			var inner sync.WaitGroup
+			for _, cs := range pats {
+				cs := cs
+				sem <- struct{}{}
+				inner.Add(1)
+				go func() {
+					defer inner.Done()
+					defer func() { <-sem }()
+					runCase(c, cs, true)
+				}()
+			}
+			inner.Wait()
+		}()
+		// schedules
+		ns := c.Budget(2, 12)
+		for i := 0; i < ns && c.NFailures() < 5; i++ {
+			cs := genSched(c, rig.Pick(c.Rng, []string{"direct", "sync"}))
+			c.Case(rig.Canon(cs), true, "sched", func() interface{} { return cs })
+			c.Trace()
+			runCase(c, cs, true)
+		}
+		// scripts
+		n := c.Budget(3000, 120000)
+		for i := 0; i < n && c.NFailures() < 5; i++ {
+			path := "direct"
+			if i%3 == 2 {
+				path = "sync"
+			}
+			raw := i%5 == 4
+			cs := genScript(c, path, raw)
+			f, out := checkScriptOut(c, cs)
+			adm, ref, eff := 0, 0, 0
+			for j, a := range out.Answers {
+				switch {
+				case cs.Ops[j].RQ != nil && a:
+					eff++
+				case cs.Ops[j].RQ != nil:
+				case a:
+					adm++
+				default:
+					ref++
+				}
+			}
+			bucket := "script:" + path
+			if raw {
+				bucket += ":raw"
+			}
+			if !sortedScript(cs) {
+				bucket += ":unsorted"
+			}
+			c.Case(rig.Canon(cs), (adm > 0 && ref > 0) || eff > 0, bucket, func() interface{} {
+				return map[string]interface{}{"qps": cs.QPS, "burst": cs.Burst, "path": cs.Path, "answers": renderAnswers(cs, out.Answers)}
+			})
+			c.Count(fmt.Sprintf("ops:%d-%d", len(cs.Ops)/20*20, len(cs.Ops)/20*20+19))
+			if eff > 0 {
+				c.Count("script:effective-reconfiguration")
+			}
+			if !upperJudged(cs) {
+				c.Count("script:upper-judge-skipped(qps>5e8)")
+			} else if !lowerJudged(cs) {
+				c.Count("script:lower-judge-skipped(burst>65536)")
+			}
+			c.Trace()
+			if f != nil {
+				runCase(c, cs, true)
+			}
+		}
+		wg.Wait()
+	})
 }
